@@ -579,12 +579,6 @@ func main() {
 	}
 	racePass(r, scratch, jobsScenarios(func() (out []Scenario) {
 		for _, j := range jobs {
-			if j.sc.Name == "seekrange-same-pos-widen" || j.sc.Name == "seekrange-same-pos-narrow" || (j.sc.Name == "read-seekrange" && j.sc.CSize > 1) {
-				// histories that hit the known same-position SeekRange defect of the unchanged tree
-				// (known_findings.json): the scheduled exploration reports them by their own signatures; the
-				// free-running pass has only generic signatures (and would sit out the 120 s hang watchdog)
-				continue
-			}
 			out = append(out, j.sc)
 		}
 		return
